@@ -338,6 +338,12 @@ impl CatalogPersistence {
             let (schema, new_pos) = Self::deserialize_schema(bytes, pos)?;
             pos = new_pos;
 
+            if !catalog.schema_exists(schema.name()) {
+                // Catalog::new() only creates the built-in schemas; a schema made with
+                // CREATE SCHEMA has to be re-created from the file, with the id it had.
+                catalog.restore_schema(schema.id(), schema.name());
+            }
+
             if let Some(existing_schema) = catalog.get_schema_mut(schema.name()) {
                 for table in schema.tables().values() {
                     existing_schema.add_table(table.clone());
